@@ -37,6 +37,7 @@ def run(chk: Check) -> None:
     run_shard(chk, ix)
     run_meta_ex_after_meta(chk, ix)
     run_sqlite_write(chk, ix)
+    run_late_blockers_surface(chk, ix)
 
     # ---------------- R04.1
     r1 = chk.rule("R04.1", "file store publishes atomically: write to a fresh temporary, os.replace onto the final name, OSError => return False; no other writer of cache records", floor=3)
@@ -655,3 +656,30 @@ def run_sqlite_write(chk: Check, ix) -> None:
         r8.ok("SqliteMetadataStore.getmtime reads the mtime column", gm.loc())
     else:
         r8.violation("SqliteMetadataStore.getmtime reads the mtime column", sq.methods["write"].loc(), "getmtime no longer returns the stored time stamp")
+
+
+def run_late_blockers_surface(chk: Check, ix) -> None:
+    """R04.9: a blocking error reported after the last module was processed is still raised."""
+    r9 = chk.rule("R04.9", "build.py reports a failed cache write of build-wide records (plugins snapshot, fine-grained dependency cache) as a *blocking* error (`manager.error(..., blocker=True)`). Blocking errors only take effect when somebody tests Errors.is_blockers() (State.check_blockers after each phase of a module). The functions that report such an error and are called from dispatch() after process_graph are followed, on every CFG path to dispatch's exit, by a test of is_blockers() / raise_error(): otherwise the run prints Success, exits 0 and leaves a cache whose build-wide record was not written", floor=2)
+    b = ix.module("mypy.build")
+    reporters = set()
+    for f in b.functions.values():
+        for c in ast.walk(f.node):
+            if isinstance(c, ast.Call) and call_name(c) == "error" and any(k.arg == "blocker" and isinstance(k.value, ast.Constant) and k.value.value is True for k in c.keywords):
+                if not any(isinstance(x, ast.Call) and call_name(x) in ("raise_error", "check_blockers") for x in ast.walk(f.node)):
+                    reporters.add(f.name)
+    d = ix.func("mypy.build.dispatch")
+    g = CFG(d.node)
+    sites = [n for n in g.nodes if n.kind == "stmt" and any(isinstance(c, ast.Call) and call_name(c) in reporters for c in ast.walk(n.stmt))]
+    # only direct statements (not the enclosing if/for headers)
+    sites = [n for n in sites if isinstance(n.stmt, ast.Expr)]
+    checks = [n for n in g.nodes if n.stmt is not None and any(isinstance(c, ast.Call) and call_name(c) in ("is_blockers", "raise_error", "check_blockers") for c in ast.walk(n.stmt.test if n.kind == "test" and hasattr(n.stmt, "test") else n.stmt))]
+    if len(sites) < 2:
+        raise AnalysisError(f"dispatch: {len(sites)} calls of functions that report late blocking errors found (reporters: {sorted(reporters)})")
+    for s in sites:
+        nm = next(call_name(c) for c in ast.walk(s.stmt) if isinstance(c, ast.Call) and call_name(c) in reporters)
+        key = f"dispatch: a blocking error reported by {nm} is raised before dispatch returns"
+        if checks and g.must_pass(s, [g.exit], checks, labels_excluded=("exc",)):
+            r9.ok(key, d.loc(s.stmt))
+        else:
+            r9.violation(key, d.loc(s.stmt), f"{nm} reports its failed write with blocker=True, but from here dispatch returns without anybody testing Errors.is_blockers(): the message is never printed and the exit status is 0")
